@@ -39,6 +39,9 @@ def _ann_optional(ann) -> bool:
     return False
 
 
+CALLABLE_SLOTS: set = set()
+
+
 def discover(sym):
     """{attr: [class names]} optional slots; {attr: [class names]} non-optional attributes"""
     opt, nonopt = {}, {}
@@ -47,6 +50,8 @@ def discover(sym):
         for st in ci.node.body:
             if isinstance(st, ast.AnnAssign) and isinstance(st.target, ast.Name):
                 (opt if _ann_optional(st.annotation) else nonopt).setdefault(st.target.id, []).append(ci.name)
+                if "Callable" in ast.unparse(st.annotation):
+                    CALLABLE_SLOTS.add(st.target.id)
         init = ci.methods.get("__init__")
         if init is None:
             continue
@@ -54,6 +59,8 @@ def discover(sym):
         a = init.args
         for p in list(a.posonlyargs) + list(a.args) + list(a.kwonlyargs):
             params[p.arg] = p.annotation
+            if p.annotation is not None and "Callable" in ast.unparse(p.annotation):
+                CALLABLE_SLOTS.add(p.arg)
         for n in ast.walk(init):
             tgt = val = None
             if isinstance(n, ast.Assign) and len(n.targets) == 1:
@@ -215,7 +222,9 @@ def classify(sym, mod, node):
     if isinstance(p, ast.Subscript) and p.value is node:
         return "deref", "subscript"
     if isinstance(p, ast.Call) and p.func is node:
-        return "deref", "call"
+        # `E.name(...)`: only a slot that holds a callable can be meant; a data slot (`limit: int | None`) spelled like a
+        # method of a third-party object (`select.limit(n)`) is that method
+        return ("deref", "call") if node.attr in CALLABLE_SLOTS else ("pass", "method call on another class")
     if isinstance(p, (ast.For, ast.comprehension)) and p.iter is node:
         return "deref", "iteration"
     if isinstance(p, ast.Starred):
